@@ -156,6 +156,7 @@ class ConcRunner:
             n = len(ops)
 
             def run_from(i):
+                nonlocal cache
                 while i < n:
                     op = ops[i]
                     name = op['op']
@@ -221,6 +222,26 @@ class ConcRunner:
                             self.sched.emit({'ev': 'ret', 'c': cid, 'ret': R('none')})
                             lockcon[0].close()
                             lockcon[0] = None
+                        continue
+                    if name == 'reopen':
+                        # a new handle on the same directory, opened while the other clients work (Cache.__init__ is
+                        # scheduled like any call); the client continues on the new handle
+                        self.sched.yield_point('call', name)
+                        self.sched.emit({'ev': 'call', 'c': cid, 'op': 'reopen', 'a': {'args': 0, 'stats0': 0}, 'now': self.clock.tick})
+                        try:
+                            new = self.make_handle()
+                            if cache is not self.shared:
+                                (cache.cache if self.kind in ('deque', 'index') else cache).close()
+                            cache = new
+                            self.caches[cid] = new
+                            ret = R('none')
+                        except self.dc.Timeout:
+                            ret = R('Timeout')
+                        except sched.Stop:
+                            raise
+                        except Exception as exc:
+                            ret = R(type(exc).__name__)
+                        self.sched.emit({'ev': 'ret', 'c': cid, 'ret': ret})
                         continue
                     if name == 'iter_open':
                         # a suspended iterator: its own pseudo client (cid + nreal) for the monitor
